@@ -84,7 +84,8 @@ func (ly *layouts) compute(t types.Type, name string) []leaf {
 	case *types.Pointer:
 		return []leaf{{bv64, lkBase, name + ".a0", nil}, {bv64, lkIndex, name + ".a1", nil}, {bv64, lkPtrMeta, name + ".a2", u.Elem()}}
 	case *types.Slice:
-		return []leaf{{bv64, lkBase, name + ".base", nil}, {bv64, lkIndex, name + ".off", nil}, {bv64, lkLen, name + ".len", nil}, {bv64, lkCap, name + ".cap", nil}}
+		// (Ptee of the base leaf of a slice: its element type, used by the typed-separation axiom)
+		return []leaf{{bv64, lkBase, name + ".base", u.Elem()}, {bv64, lkIndex, name + ".off", nil}, {bv64, lkLen, name + ".len", nil}, {bv64, lkCap, name + ".cap", nil}}
 	case *types.Map, *types.Chan:
 		return []leaf{{bv64, lkBase, name + ".ref", nil}}
 	case *types.Signature:
